@@ -16,9 +16,9 @@ import (
 // laxCodec accepts any message type: Marshal yields one byte, Unmarshal ignores the data.
 type laxCodec struct{ name string }
 
-func (c laxCodec) Name() string                 { return c.name }
-func (c laxCodec) Marshal(any) ([]byte, error)  { return []byte("x"), nil }
-func (c laxCodec) Unmarshal([]byte, any) error  { return nil }
+func (c laxCodec) Name() string                { return c.name }
+func (c laxCodec) Marshal(any) ([]byte, error) { return []byte("x"), nil }
+func (c laxCodec) Unmarshal([]byte, any) error { return nil }
 
 type countIcpt struct {
 	n     *int
